@@ -67,6 +67,13 @@ type FuncSpec struct {
 	Skip    []string `json:"skip"`    // local variables whose defining/assigning statements are dropped (non-integer helpers such as byte slices; every integer use of them must be covered by `subst` or be a parameter of the same name)
 	RetVar  string   `json:"retvar"`  // translate the leading statements only, up to and including the first assignment to this variable, and return it
 	RetElem *int     `json:"retelem"` // the function returns (the address of) a composite literal: return its i-th element
+	// opt-in extensions for arithmetic ties of functions that store into memory (see ties.go); a spec that uses none
+	// of them is translated exactly as before:
+	RetStore   string `json:"retstore"`   // source text of a non-identifier assignment target (`h.Version`, `b[0]`, `b.bits[word]`): translate the leading statements up to the first store to it and return the stored value; stores to other memory and call statements before it are dropped. `x[k]` (k a literal) is also matched inside `binary.{Big,Little}Endian.PutUintN(x[lo:hi], v)`
+	SkipGuards bool   `json:"skipguards"` // drop `if c { …; return … }` statements without else (early exits): the definition is the value computed when they are passed
+	SkipStores bool   `json:"skipstores"` // (implied by retstore) drop statements that only store to memory the translation does not model (non-identifier targets), call a function for its effect, or branch over such statements
+	InIf       string `json:"inif"`       // translate the body of the first `if` statement (or `for cond {}` loop: one iteration) whose condition has this source text as if it were the function body
+	RetCond    bool   `json:"retcond"`    // with inif: return that condition itself (ret must be bool)
 }
 
 type ParamSpec struct {
